@@ -17,6 +17,16 @@ audience
 """
 
 
+def config_signal_only(names):
+    """the predicate mentions the signal only: the auditor is woken by samples alone, its period starts with the
+    first sample and is closed in the final round; repeated identical samples are separate observations"""
+    out = CFG_HEAD
+    for i, n in enumerate(names):
+        out += "  m%d audits throughout\n  m%d expects %s: [a s] > 0\n" % (i, i, n)
+    out += "end\n"
+    return out
+
+
 def config_two_periods(names):
     out = CFG_HEAD
     for i, n in enumerate(names):
@@ -148,6 +158,24 @@ def run(tier, seed):
     rep.kdis = []
     rep.ofail = []
 
+    def judge_signal_only(word):
+        if not word:
+            return
+        r = impl.call("audition", Args={"Parse": {"Text": config_signal_only(names)}, "Events": events_for(word), "EpochOffset": 1000.0})
+        if r.get("Panicked") or r.get("harnessCrash") or r.get("Err"):
+            rep.violation("audit loop failed on a scripted period", {"word": wstr(word), "result": r}, tags={"kind": "crash"})
+            return
+        reps = reports_by_auditor(r["Events"])
+        for i, n in enumerate(names):
+            codes = ",".join(reps.get("m%d" % i, [])) or "-"
+            rep.case((n, "sig-only", wstr(word)))
+            rep.count("signal-only")
+            o = model.ask("C01 oracle %s %s %s" % (hexn[n], wstr(word), codes))
+            if o != "ok":
+                rep.count("O-fail")
+                rep.ofail.append({"modality": n, "word": wstr(word), "impl_reports": codes, "oracle": o,
+                                  "origin": "signal-only predicate", "config": config_signal_only(names), "events": events_for(word)})
+
     def judge_pair(w1, w2):
         """two activation periods of the same auditors: each period is judged on its own words"""
         from . import audgen
@@ -192,6 +220,8 @@ def run(tier, seed):
     maxlen = 8 if tier == "quick" else 12
     for word in all_words(maxlen):
         judge_word(word, "exhaustive<=%d" % maxlen)
+    for word in all_words(6 if tier == "quick" else 9):
+        judge_signal_only(word)
     rng = SplitMix(seed)
     short = all_words(3 if tier == "quick" else 4)
     for w1 in short:
